@@ -283,6 +283,65 @@ Section Obs.
   Definition ends_tilde (p : path) : bool :=
     match rev (last_name p) with c :: _ => N.eqb c TILDE | [] => false end.
 
+  (* ---------------------------------------------------------------- differing files and the strategy (C13, C14, C15) *)
+  Fixpoint path_str (p : path) : str :=        (* the path relative to the job, as the strategy receives it *)
+    match p with
+    | [] => []
+    | [k] => k
+    | k :: p' => k ++ [SLASH] ++ path_str p'
+    end.
+
+  Definition file_at (p : path) (d : dir) : option (content * Z) :=
+    match lookup_path p (Dir d) with Some (File c m) => Some (c, m) | _ => None end.
+
+  (* [deep] says how "different content" is decided: the comparison the call was asked to use *)
+  Definition conflicts_gen (excl : path -> bool) (deep : bool) (i : sinput) (sd dd : dir)
+    : list (path * (content * Z) * (content * Z)) :=
+    flat_map (fun e =>
+                match file_at (fst e) sd, file_at (fst e) dd with
+                | Some (c1, m1), Some (c2, m2) =>
+                    if (o_recursive (i_opts i) || Nat.eqb (length (fst e)) 1)
+                       && negb (excl (fst e))
+                       && negb (file_same frepr deep c1 m1 c2 m2)
+                    then [(fst e, (c1, m1), (c2, m2))] else []
+                | _, _ => []
+                end) (flat sd).
+
+  (* obligations are stated for files no component of whose path matches an exclude pattern ... *)
+  Definition conflicts (deep : bool) (i : sinput) := conflicts_gen (path_excluded i) deep i.
+  (* ... while a FileSyncConflict is justified by any differing file whose own name is not excluded *)
+  Definition name_excluded (i : sinput) (p : path) : bool :=
+    o_exclude (i_opts i) (last_name p) || path_eqb p [FN_SP] || (negb (doc_is_file i) && path_eqb p [FN_DOC]).
+  Definition conflicts_by_name (deep : bool) (i : sinput) := conflicts_gen (name_excluded i) deep i.
+
+  (* a reachable name that is a file on one side and a directory on the other, its own name not excluded *)
+  Definition kind_clash (i : sinput) (sd dd : dir) : bool :=
+    existsb (fun e =>
+               (o_recursive (i_opts i) || Nat.eqb (length (fst e)) 1)
+               && negb (name_excluded i (fst e))
+               && match lookup_path (fst e) (Dir dd), snd e with
+                  | Some (Dir _), Some _ => true
+                  | Some (File _ _), None => true
+                  | _, _ => false
+                  end) (flat sd).
+  Definition any_clash (i : sinput) : bool :=
+    existsb (fun pr => match snd pr with Some dd => kind_clash i (snd (fst pr)) dd | None => false end) (pairs i).
+
+  Definition is_content (c : content) (x : option (content * Z)) : bool :=
+    match x with Some (c', _) => content_eqb c c' | None => false end.
+
+  (* one conflicting file: overwritten iff the strategy says so; untouched without a strategy *)
+  Definition conflict_ok (i : sinput) (o : sobs) (dd' : dir) (x : path * (content * Z) * (content * Z)) : bool :=
+    let '(p, (c1, m1), (c2, m2)) := x in
+    let after := file_at p dd' in
+    match o_strategy (i_opts i) with
+    | None => negb (is_none (ob_exn o)) && is_content c2 after
+    | Some s =>
+        let v := verdict s (path_str p) m1 m2 in
+        if is_none (ob_exn o) then is_content (if v then c1 else c2) after
+        else is_content c2 after || (v && is_content c1 after)
+    end.
+
   Definition docs_of (fn : str) (sd dd dd' : dir) : kvs * kvs * kvs :=
     (read_doc fn sd, read_doc fn dd, read_doc fn dd').
 End Obs.
